@@ -10,6 +10,8 @@ T-ATTRS    in to_hif_dict every node / edge that has attributes is written with 
 T-CAST     every ID the readers take from the data is cast with the matching nodetype / edgetype.
 T-SIBLING  every network-to-network branch of to_hypergraph / to_dihypergraph / to_simplicial_complex transfers nodes,
            edges (with IDs) and the network attributes.
+T-NPID     no label reaches a network-building call after a detour through a NumPy array built from the labels
+           (np.array([0, "b"]) is an array of strings: mixed int/str labels come back as strings).
 T-ROLE     from_bipartite_graph decides which endpoint of a graph edge is the hyperedge by membership in the recorded
            bipartite sets, in both the directed and the undirected branch.
 Round-trip equality of values is NOT decided.
@@ -29,7 +31,7 @@ PROP = "C10"
 def run(ctx):
     repo = ctx.repo
     res = Result(PROP)
-    res.rules = ["T-KEYS", "T-DEF", "T-ATTRS", "T-CAST", "T-SIBLING", "T-ROLE"]
+    res.rules = ["T-KEYS", "T-DEF", "T-ATTRS", "T-CAST", "T-SIBLING", "T-ROLE", "T-NPID"]
     res.explanation = (
         "Narrow claim: finite tables (keys, enumerations, literal maps) are extracted from the writer and the reader of "
         "each dict format and compared; definite assignment of unconditionally-read keys; sibling comparison of the "
@@ -40,6 +42,7 @@ def run(ctx):
     check_hdict(repo, res)
     check_siblings(repo, res)
     check_role(repo, res)
+    check_npid(repo, res)
     return res
 
 
@@ -573,3 +576,86 @@ def check_role(repo, res):
                         res.add(mk_finding(PROP, "T-ROLE", w, c, f"to_bipartite_graph writes {side} nodes as {'node->edge' if first_is_node else 'edge->node'} arcs, the opposite of what from_bipartite_graph reads", role=side))
     if n_w < 2:
         raise AnalysisError("to_bipartite_graph: tail/head arc writers not found (extractor does not recognise the code)")
+
+
+BUILDERS = {"add_node_to_edge", "add_edge", "add_edges_from", "add_nodes_from", "add_node", "add_simplex", "add_simplices_from"}
+
+
+def np_taint(fn_node):
+    """Names whose value derives from np.array/np.asarray/np.fromiter applied to non-numeric data of the function
+    (flow-insensitive closure; an index position inside a subscript does not propagate)."""
+    def is_source(c):
+        return isinstance(c, ast.Call) and isinstance(c.func, ast.Attribute) and c.func.attr in ("array", "asarray", "fromiter", "asanyarray") and isinstance(c.func.value, ast.Name) and c.func.value.id in ("np", "numpy") and c.args and not _numeric_literal(c.args[0])
+
+    def carries(e, tainted):
+        """Does the value of e derive from a tainted name / a source (ignoring subscript index positions and dict keys)?"""
+        if isinstance(e, ast.Subscript):
+            return carries(e.value, tainted)
+        if isinstance(e, ast.Name):
+            return e.id in tainted
+        if is_source(e):
+            return True
+        if isinstance(e, ast.Call):
+            if isinstance(e.func, ast.Attribute) and carries(e.func.value, tainted):
+                return True
+            if isinstance(e.func, ast.Name) and e.func.id in ("len", "range", "int", "float", "str", "bool", "sum", "max", "min"):
+                return False
+            return any(carries(a, tainted) for a in e.args)
+        if isinstance(e, (ast.Tuple, ast.List, ast.Set)):
+            return any(carries(x, tainted) for x in e.elts)
+        if isinstance(e, (ast.ListComp, ast.SetComp, ast.GeneratorExp)):
+            inner = set(tainted)
+            for g in e.generators:
+                if carries(g.iter, inner):
+                    inner |= {n.id for n in ast.walk(g.target) if isinstance(n, ast.Name)}
+            return carries(e.elt, inner)
+        if isinstance(e, ast.IfExp):
+            return carries(e.body, tainted) or carries(e.orelse, tainted)
+        if isinstance(e, ast.Starred):
+            return carries(e.value, tainted)
+        return False
+
+    tainted = set()
+    changed = True
+    while changed:
+        changed = False
+        for st in ast.walk(fn_node):
+            new = set()
+            if isinstance(st, ast.Assign) and carries(st.value, tainted):
+                for t in st.targets:
+                    new |= {n.id for n in ast.walk(t) if isinstance(n, ast.Name) and isinstance(n.ctx, ast.Store)}
+            if isinstance(st, (ast.For, ast.comprehension)):
+                it, tg = st.iter, st.target
+                if isinstance(it, ast.Call) and isinstance(it.func, ast.Name) and it.func.id == "zip" and isinstance(tg, ast.Tuple) and len(tg.elts) == len(it.args):
+                    for t, a in zip(tg.elts, it.args):
+                        if carries(a, tainted):
+                            new |= {n.id for n in ast.walk(t) if isinstance(n, ast.Name)}
+                elif carries(it, tainted):
+                    new |= {n.id for n in ast.walk(tg) if isinstance(n, ast.Name)}
+            if new - tainted:
+                tainted |= new
+                changed = True
+    return tainted, carries
+
+
+def _numeric_literal(e):
+    return isinstance(e, (ast.List, ast.Tuple)) and all(isinstance(x, ast.Constant) and isinstance(x.value, (int, float)) for x in e.elts)
+
+
+def check_npid(repo, res):
+    n = 0
+    for mn, mi in sorted(repo.modules.items()):
+        if not mn.startswith("xgi.convert."):
+            continue
+        for fn in mi.functions.values():
+            sinks = [c for c in ast.walk(fn.node) if isinstance(c, ast.Call) and isinstance(c.func, ast.Attribute) and c.func.attr in BUILDERS]
+            if not sinks:
+                continue
+            tainted, carries = np_taint(fn.node)
+            for c in sinks:
+                n += 1
+                bad = [a for a in list(c.args) + [k.value for k in c.keywords] if carries(a, tainted)]
+                res.inst("T-NPID", f"{fn.qualname}:{c.lineno} {c.func.attr}(...) receives labels that never passed through a NumPy array", not bad)
+                if bad:
+                    res.add(mk_finding(PROP, "T-NPID", fn, c, f"{fn.qualname}: `{unparse(bad[0], 40)}` handed to {c.func.attr}() was taken out of a NumPy array built from the labels; NumPy stores one element type, so a label list that mixes integers and strings comes back as strings (and Python ints as NumPy scalars) - the IDs of the converted network differ from the labels given", role=c.func.attr))
+    res.floor("network-building calls in the converters", n, 25)
